@@ -145,6 +145,12 @@ def run(F, R, tier):
                     seen_paths.add(path)
                     cls = M.classify_callee(path)
                     if cls is None:
+                        rng = collect_from_range(P, f, bi, ce.get("full") or path)
+                        if rng is not None and block_state(f, bi) is not None:
+                            rb, ro = rng
+                            rst = block_state(f, rb)
+                            if rst is not None:
+                                alloc_sites.append((f, rb, path, ro, rst))
                         continue
                     name = M.strip_generics(path).rsplit("::", 1)[-1]
                     st = block_state(f, bi)
@@ -482,6 +488,57 @@ def origin_calls(A, f, o, depth=0):
                 continue
             return bi, names
         rv = d["rv"]
+        if rv["k"] in ("use", "cast") and ("mv" in rv["a"] or "cp" in rv["a"]):
+            p = rv["a"].get("mv") or rv["a"].get("cp")
+            continue
+        return None
+    return None
+
+
+COLLECT_NAMES = ("collect", "from_iter", "extend", "to_vec", "collect_vec")
+
+
+def collect_from_range(P, f, bi, path):
+    """`(a..b).map(f).collect()` (no fallible shunt in between) pre-allocates b-a elements from the iterator's size hint: an allocation
+    sink whose size is the end of the range.  -> (block of the Range aggregate, end operand) or None."""
+    name = LP.method_name(path)
+    if name not in COLLECT_NAMES or "Range" not in path:
+        return None
+    ty = LP._strip_closures(path)
+    if "GenericShunt" in ty or "Result<" in ty.split(" as ")[0] and name == "collect" and "Result<alloc::vec" in ty:
+        return None
+    t = f.blocks[bi]["t"]
+    if not t.get("args"):
+        return None
+    # the iterator argument is the last one for extend(vec, iter), the first for collect/from_iter
+    o = t["args"][-1] if name == "extend" else t["args"][0]
+    p = o.get("mv") or o.get("cp")
+    seen = set()
+    while p is not None and len(seen) < 20:
+        l = p[0]
+        if l in seen:
+            return None
+        seen.add(l)
+        defs = []
+        for b2, b in enumerate(f.blocks):
+            if b["cleanup"]:
+                continue
+            for st in b["s"]:
+                if st["k"] == "assign" and st["p"] == [l]:
+                    defs.append(("s", b2, st))
+            tt = b["t"]
+            if tt["k"] == "call" and tt.get("dest") == [l]:
+                defs.append(("c", b2, tt))
+        if len(defs) != 1:
+            return None
+        kind, b2, d = defs[0]
+        if kind == "c":
+            p = (d["args"][0].get("mv") or d["args"][0].get("cp")) if d.get("args") else None
+            continue
+        rv = d["rv"]
+        if rv["k"] == "agg" and "Range" in (rv.get("adt") or ""):
+            ops = rv.get("ops") or []
+            return (b2, ops[1]) if len(ops) >= 2 else None
         if rv["k"] in ("use", "cast") and ("mv" in rv["a"] or "cp" in rv["a"]):
             p = rv["a"].get("mv") or rv["a"].get("cp")
             continue
